@@ -23,7 +23,7 @@ QuickYears == {1900, 2000, 2001, 2100, 2262, 2299}
 ThoroughYears    == {y \in AllYears : y % 4 = 0} \cup 1900..1904 \cup 1997..2003 \cup 2097..2103 \cup 2197..2203 \cup 2257..2265 \cup 2295..2299
 QuickOvfYears    == {2000, 2299}
 ThoroughOvfYears == {1900, 1901, 1904, 2299} \cup 1995..2005 \cup 2095..2105 \cup {y \in AllYears : y % 37 = 5}
-Tods == << <<0, 0, 0, 0>>, <<10, 20, 30, 50>>, <<23, 59, 59, 999999>> >>
+Tods == << <<0, 0, 0, 0>>, <<10, 20, 30, 50>>, <<23, 59, 59, 999999>>, <<1, 2, 3, 123456>> >>
 Seps == {"-", "/", ".", " "}
 
 Init == /\ done = FALSE
@@ -119,12 +119,15 @@ Case(c, t, s, dl) ==
     LET f == Spell(s[1], c[1], c[2], c[3], t, s[3], s[2])  want == Expected("dt", s[1], f, dl) IN
     [form |-> s[1], tl |-> s[2], wr |-> s[3], dl |-> dl, f |-> f, dt |-> want, ymd |-> Expected("ymd", s[1], f, dl),
      cl |-> Clause("dt", s[1], s[3], dl, want)]
+\* the spellings that write the seconds with k decimals take their time from a menu whose fractions survive the cut
+FracTods == << <<20, 30, 40, 500000>>, <<12, 0, 0, 7000>>, <<1, 2, 3, 123456>>, <<23, 59, 59, 999000>>, <<0, 0, 0, 120000>> >>
+TodFor(o, i, tl) == IF tl > 10 THEN FracTods[((o + tl) % Len(FracTods)) + 1] ELSE GenTods[i]
 GenCasesNext ==
     LET c == FastYMD(a)
         idx == SetToSeq({<<s, dl>> \in Spellings \X Dialects :
                              Spellable(c, s[1]) /\ (s[1] \in StringForms \/ dl = (IF a % 2 = 0 THEN "uk" ELSE "us"))}) IN
     Emit([k |-> "cases", y |-> c[1], m |-> c[2], d |-> c[3], t |-> GenTods[b],
-          cases |-> [i \in 1..Len(idx) |-> Case(c, GenTods[b], idx[i][1], idx[i][2])]])
+          cases |-> [i \in 1..Len(idx) |-> Case(c, TodFor(a, b, idx[i][1][2]), idx[i][1], idx[i][2])]])
 
 \* S2C for the overflow clause
 DMenu == <<-400, -366, -365, -364, -31, -30, -1, 0, 1, 2, 28, 29, 30, 31, 32, 59, 60, 61, 365, 366, 367, 399, 400>>
